@@ -67,7 +67,9 @@ pub fn judge(prop: &dyn Property, scn: &Scenario, tr: &Trace) -> (Judged, Vec<St
             "panic" | "hang" | "exit" | "caller-panic" => {
                 if !owns_death {
                     foreign.push(format!("C15 {} d={} t={} {}", f.kind, f.d, f.t, f.detail));
-                    abstain = true;
+                    if !prop.judges_after_death() {
+                        abstain = true;
+                    }
                 }
             }
             "malformed-egress" => {
